@@ -110,6 +110,12 @@ var actions = []conf.AuthAction{
 	conf.AuthActionAPI, conf.AuthActionMetrics, conf.AuthActionPprof,
 }
 
+// 80-character plain credentials that extend "u1x" / "p1x"
+var (
+	longUser = "u1x" + strings.Repeat("y", 77)
+	longPass = "p1x" + strings.Repeat("z", 77)
+)
+
 func sha(s string) string {
 	h := sha256.Sum256([]byte(s))
 	return "sha256:" + base64.StdEncoding.EncodeToString(h[:])
@@ -227,15 +233,40 @@ func refPartMatches(c credPart, guess string) bool {
 	panic("kind")
 }
 
+// relation of a guess that does NOT match to the plaintext the configured credential stands for:
+// the near misses a comparison that is not an exact equality would let through (prefix compare,
+// truncating copy, padded buffers, case folding, hash of the stored hash ...). Only used to name
+// the class of a case (distinct classes, violation keys), never for the decision.
+var mismatchRels = []string{"empty", "ext", "trunc", "affix", "case", "hash", "other"}
+
+func mismatchRel(c credPart, guess string) string {
+	w := c.plain
+	switch {
+	case guess == "":
+		return "empty"
+	case strings.HasPrefix(guess, w):
+		return "ext" // the guess starts with the right value and goes on
+	case strings.HasPrefix(w, guess):
+		return "trunc" // the guess is a proper prefix of the right value
+	case strings.HasSuffix(guess, w) || strings.HasSuffix(w, guess):
+		return "affix"
+	case strings.EqualFold(guess, w):
+		return "case"
+	case c.kind != kPlain && len(guess) >= 16 && strings.Contains(c.conf, guess):
+		return "hash" // the stored hash (or its encoded part) presented as the secret
+	}
+	return "other"
+}
+
 func refCred(c credSpec, s supplied) (bool, string) {
 	if c.user.kind == kAny {
 		return true, "any"
 	}
 	if !refPartMatches(c.user, s.user) {
-		return false, "usermismatch"
+		return false, "usermismatch-" + mismatchRel(c.user, s.user)
 	}
 	if !refPartMatches(c.pass, s.pass) {
-		return false, "passmismatch"
+		return false, "passmismatch-" + mismatchRel(c.pass, s.pass)
 	}
 	return true, "match"
 }
@@ -271,6 +302,11 @@ type tables struct {
 	extras   []extra
 	variants []variant
 
+	// the first nMainCreds / nMainSup elements of creds / sup are the alphabet of the single, pair,
+	// triple and swap phases; the rest is used by the credential phases only
+	nMainCreds int
+	nMainSup   int
+
 	ipTab   [][]int8    // [ipset][ip] tri
 	ipWhy   [][]uint8   // [ipset][ip] reason code
 	permTab [][][]bool  // [permset][action][path]
@@ -299,6 +335,21 @@ func buildTables(thorough bool) *tables {
 		for _, p := range passes {
 			if u.kind == kAny && p.kind != kEmpty {
 				continue // rejected by conf.Validate ("using a password with 'any' user is not supported")
+			}
+			t.creds = append(t.creds, credSpec{u, p})
+		}
+	}
+	t.nMainCreds = len(t.creds)
+	// credential phases: a second plain user and password that EXTEND the first ones, so that a supplied
+	// value can be the exact value of one entry and a near miss of another
+	// ... and a third, 80 characters long (beyond 32/64-byte blocks and the 72-byte limit of some password
+	// hashes), which extends both: comparisons through fixed-size buffers are exact on short values only
+	usersX := append(append([]credPart{}, users...), credPart{"u1x", kPlain, "u1x"}, credPart{longUser, kPlain, longUser})
+	passesX := append(append([]credPart{}, passes...), credPart{"p1x", kPlain, "p1x"}, credPart{longPass, kPlain, longPass})
+	for ui, u := range usersX {
+		for pi, p := range passesX {
+			if (u.kind == kAny && p.kind != kEmpty) || (ui < len(users) && pi < len(passes)) {
+				continue
 			}
 			t.creds = append(t.creds, credSpec{u, p})
 		}
@@ -360,6 +411,31 @@ func buildTables(thorough bool) *tables {
 	t.sup = []supplied{
 		{"", ""}, {"u1", "p1"}, {"u1", "bad"}, {"u2", "p1"}, {"any", ""}, {"u1", ""}, {"", "p1"}, {"any", "p1"},
 		{sha("u1"), sha("p1")}, // pass-the-hash attempt
+	}
+	t.nMainSup = len(t.sup)
+	// credential phases: the full product of the near misses of the configured plaintexts ("u1", "p1"):
+	// exact, extended (by a character, by itself, by NUL, by a blank), truncated, empty, with a character
+	// in front, tail only, other case, other value of the same length, the reserved name, the stored
+	// sha256 string and its base64 part alone
+	// and of the long ones: exact, extended, truncated by one character, last character changed
+	nearUser := []string{"u1", "u1x", "u1u1", "u1\x00", "u1 ", "u", "", "xu1", "1", "U1", "u2", "any",
+		sha("u1"), sha("u1")[len("sha256:"):],
+		longUser, longUser + "x", longUser[:len(longUser)-1], longUser[:len(longUser)-1] + "Q"}
+	nearPass := []string{"p1", "p1x", "p1p1", "p1\x00", "p1 ", "p", "", "xp1", "1", "P1", "bad",
+		sha("p1"), sha("p1")[len("sha256:"):],
+		longPass, longPass + "x", longPass[:len(longPass)-1], longPass[:len(longPass)-1] + "Q"}
+	for _, u := range nearUser {
+		for _, p := range nearPass {
+			dup := false
+			for _, s := range t.sup {
+				if s.user == u && s.pass == p {
+					dup = true
+				}
+			}
+			if !dup {
+				t.sup = append(t.sup, supplied{u, p})
+			}
+		}
 	}
 
 	t.ips = []clientIP{
@@ -521,7 +597,7 @@ func (ck *checker) merge(a *acc) {
 		if k.admitted {
 			for _, part := range strings.Split(w, "|") {
 				f := strings.Split(part, ",")
-				if f[0] != "notcontained" && f[0] != "noip" && f[1] != "none" && f[2] != "usermismatch" && f[2] != "passmismatch" && f[2] != "vfalse" {
+				if f[0] != "notcontained" && f[0] != "noip" && f[1] != "none" && !strings.HasPrefix(f[2], "usermismatch") && !strings.HasPrefix(f[2], "passmismatch") && f[2] != "vfalse" {
 					ck.hist["admitting-entry/ip="+f[0]]++
 					ck.hist["admitting-entry/perm="+f[1]]++
 					ck.hist["admitting-entry/cred="+f[2]]++
@@ -542,14 +618,22 @@ func (ck *checker) merge(a *acc) {
 var (
 	ipReasons   = []string{"emptylist", "contained", "notcontained", "dc", "noip"}
 	permReasons = []string{"none", "emptypath", "equal", "regex", "nonpath"}
-	credReasons = []string{"any", "usermismatch", "passmismatch", "vtrue", "vfalse"} // + match-<kind>/<kind> appended in init
+	credReasons = []string{"any", "vtrue", "vfalse"} // + {user,pass}mismatch-<relation>, match-<kind>/<kind> appended in init
 )
 
 func init() {
+	for _, side := range []string{"usermismatch-", "passmismatch-"} {
+		for _, rel := range mismatchRels {
+			credReasons = append(credReasons, side+rel)
+		}
+	}
 	for _, u := range []credKind{kPlain, kSha, kArgon} {
 		for _, p := range []credKind{kEmpty, kPlain, kSha, kArgon} {
 			credReasons = append(credReasons, "match-"+u.String()+"/"+p.String())
 		}
+	}
+	if len(credReasons) > 32 {
+		panic("credential reason codes do not fit 5 bits")
 	}
 }
 
@@ -565,8 +649,8 @@ func code(tab []string, s string) uint8 {
 
 const (
 	crAny    = 0
-	crVTrue  = 3
-	crVFalse = 4
+	crVTrue  = 1
+	crVFalse = 2
 )
 
 // expected decision of one list for one request (indices into the tables); why packs the
@@ -620,9 +704,41 @@ func whyString(why uint64) string {
 
 type verCall struct{ user, pass string }
 
-// run every request against one list held by manager m (already loaded with the list).
-func (ck *checker) runList(m *auth.Manager, list []entry, a *acc, withVerifiers bool, phase string) {
+// scope: the request space one phase runs against each of its lists (indices into the tables).
+type scope struct {
+	phase        string
+	acts         []int
+	paths        []int
+	ips          []int
+	sups         []int
+	variants     []variant
+	allVerifiers bool // false: quick tier runs only the nil and the equals-supplied verifier
+}
+
+func upTo(n int) []int {
+	out := make([]int, n)
+	for i := range out {
+		out[i] = i
+	}
+	return out
+}
+
+// mainScope: every action x path x client IP x the main supplied-credential alphabet.
+func (t *tables) mainScope(phase string) *scope {
+	return &scope{
+		phase: phase, acts: upTo(len(actions)), paths: upTo(len(t.paths)), ips: upTo(len(t.ips)),
+		sups: upTo(t.nMainSup), variants: t.variants, allVerifiers: t.thorough || phase == "single",
+	}
+}
+
+func (sc *scope) requests() int {
+	return len(sc.acts) * len(sc.paths) * len(sc.ips) * len(sc.sups) * len(sc.variants)
+}
+
+// run every request of the scope against one list held by manager m (already loaded with the list).
+func (ck *checker) runList(m *auth.Manager, list []entry, a *acc, withVerifiers bool, sc *scope) {
 	t := ck.t
+	phase := sc.phase
 	cred := &auth.Credentials{}
 	req := &auth.Request{Credentials: cred}
 	var calls []verCall
@@ -640,21 +756,24 @@ func (ck *checker) runList(m *auth.Manager, list []entry, a *acc, withVerifiers 
 		if ver != verNil && !withVerifiers {
 			continue
 		}
-		if !t.thorough && phase != "single" && (ver == verAlways || ver == verNever) {
+		if !sc.allVerifiers && (ver == verAlways || ver == verNever) {
 			continue // quick: multi-entry lists only with the nil and the equals-supplied verifier
 		}
 		req.CustomVerifyFunc = verFuncs[ver]
-		for actI, act := range actions {
+		for _, actI := range sc.acts {
+			act := actions[actI]
 			req.Action = act
-			for pathI, path := range t.paths {
+			for _, pathI := range sc.paths {
+				path := t.paths[pathI]
 				req.Path = path
-				for ipI := range t.ips {
+				for _, ipI := range sc.ips {
 					req.IP = t.ips[ipI].ip
-					for supI, s := range t.sup {
+					for _, supI := range sc.sups {
+						s := t.sup[supI]
 						cred.User, cred.Pass = s.user, s.pass
 						curSup = s
 						want, why := t.expect(list, ver, ipI, actI, pathI, supI)
-						for _, va := range t.variants {
+						for _, va := range sc.variants {
 							exI, ask := va.extra, va.ask
 							if ver != verNil && exI != 0 && !t.thorough {
 								continue // quick: the token/HLS/query variant only without a custom verifier
@@ -779,7 +898,7 @@ func main() {
 	// ---- phase 1: the empty list and every single-entry list x every request
 	var singles [][]entry
 	singles = append(singles, []entry{})
-	for c := range t.creds {
+	for c := 0; c < t.nMainCreds; c++ {
 		for s := range t.ipsets {
 			for p := range t.permsets {
 				singles = append(singles, []entry{{c, s, p}})
@@ -872,8 +991,11 @@ func main() {
 
 	r.Rule = "every user list (empty, every single entry of the entry alphabet, all ordered pairs [thorough: triples] over a sub-alphabet) x " +
 		"every request (action x path x client IP x supplied credentials x verifier x {(rtsp,no token,ask off),(rtsp,no token,ask on),(hls,token+query,ask on)[,(hls,token+query,ask off) thorough]}); " +
+		"credential phases: every legal single entry over {any, plain u1, plain u1x, plain 80-character, sha256, argon2} x {empty, plain p1, plain p1x, plain 80-character, sha256, argon2} and all ordered pairs of 18 such entries x " +
+		"the full product of near misses of the configured values (exact, extended by a character / itself / NUL / blank, truncated, empty, prefixed, tail, other case, other value, 'any', stored hash, bare base64; of the 80-character values: exact, extended, truncated, last character changed) as supplied user x password, " +
+		"over {6 actions} x {granting, refusing path} x {contained, not contained client IP} [thorough: 4 paths x 7 IPs] x verifiers x ask on/off; " +
 		"hot-swap: every ordered pair of lists from the sub-alphabet with ReloadInternalUsers in between; " +
-		"distinct = (phase, verifier, per-entry (IP reason, permission reason, credential reason), decision, AskCredentials)"
+		"distinct = (phase, verifier, per-entry (IP reason, permission reason, credential reason incl. the relation of a non-matching guess to the configured value), decision, AskCredentials)"
 
 	// internal deadline (never a failure): lists not started before it are counted and reported
 	budget := 150 * time.Second
@@ -884,7 +1006,10 @@ func main() {
 	var skipped atomic.Int64
 	skippedBy := map[string]int64{}
 	var skipMu sync.Mutex
-	runPhase := func(phase string, lists [][]entry) {
+	runPhase := func(phase string, lists [][]entry, sc *scope) {
+		if sc == nil {
+			sc = t.mainScope(phase)
+		}
 		accs := make([]*acc, len(lists))
 		before := skipped.Load()
 		defer func() { skippedBy[phase] = skipped.Load() - before }()
@@ -897,15 +1022,92 @@ func main() {
 			}
 			list := lists[i]
 			m := &auth.Manager{Method: conf.AuthMethodInternal, InternalUsers: t.decode(list)}
-			ck.runList(m, list, a, t.plainOnly(list), phase)
+			ck.runList(m, list, a, t.plainOnly(list), sc)
 		})
 		for _, a := range accs {
 			ck.merge(a)
 		}
 	}
-	runPhase("single", singles)
+	runPhase("single", singles, nil)
 	r.Set("lists_single", len(singles))
-	runPhase("pair", pairs)
+
+	// ---- credential phases: "matches the supplied username and password" means EQUALS. Every legal
+	// combination of {any, plain u1, plain u1x, plain 80 characters, sha256, argon2 user} x {empty, plain p1,
+	// plain p1x, plain 80 characters, sha256, argon2 password} as a single entry, and all ordered pairs of entries whose plain credentials extend
+	// one another, against the full product of near misses of the configured values (t.sup beyond the
+	// main alphabet), over a reduced action/path/IP space that still has a granting and a refusing
+	// value in each dimension.
+	credIdxConf := func(u, p string) int {
+		for i, c := range t.creds {
+			if c.user.conf == u && c.pass.conf == p {
+				return i
+			}
+		}
+		vcommon.Harness("no cred %q/%q", u, p)
+		return -1
+	}
+	nameIdx := func(names []string, want ...string) []int {
+		var out []int
+		for _, w := range want {
+			found := false
+			for i, n := range names {
+				if n == w {
+					out = append(out, i)
+					found = true
+				}
+			}
+			if !found {
+				vcommon.Harness("no element %q", w)
+			}
+		}
+		return out
+	}
+	ipNames := make([]string, len(t.ips))
+	for i, ip := range t.ips {
+		ipNames[i] = ip.name
+	}
+	credScope := &scope{
+		acts: upTo(len(actions)), paths: nameIdx(t.paths, "", "a"), ips: nameIdx(ipNames, "10.1.2.3(4B)", "11.0.0.0"),
+		sups: upTo(len(t.sup)), variants: []variant{{0, 0}, {0, 1}},
+	}
+	if r.Thorough() {
+		credScope.paths = nameIdx(t.paths, "", "a", "b1", "ab")
+		credScope.ips = upTo(7)
+		credScope.variants = t.variants
+	}
+	credIPs := []int{ipIdx(), ipIdx("10.0.0.0/8")}
+	var credSingles, credPairs [][]entry
+	for c := range t.creds {
+		for _, s := range credIPs {
+			for _, p := range []int{permIdx(perm{"publish", ""}), permIdx(perm{"read", "a"}), permIdx(perm{"api", ""}, perm{"playback", "a"})} {
+				credSingles = append(credSingles, []entry{{c, s, p}})
+			}
+		}
+	}
+	var credSub []entry
+	for _, c := range []int{
+		credIdx(kAny, kEmpty), credIdxConf("u1", "p1"), credIdxConf("u1x", "p1x"), credIdxConf("u1", "p1x"),
+		credIdxConf("u1x", "p1"), credIdxConf("u1", ""), credIdxConf(longUser, longPass), credIdx(kSha, kSha), credIdx(kArgon, kArgon),
+	} {
+		for _, p := range []int{permIdx(perm{"publish", ""}), permIdx(perm{"read", "a"})} {
+			credSub = append(credSub, entry{c, ipIdx(), p})
+		}
+	}
+	for _, e1 := range credSub {
+		for _, e2 := range credSub {
+			credPairs = append(credPairs, []entry{e1, e2})
+		}
+	}
+	sc1, sc2 := *credScope, *credScope
+	sc1.phase, sc1.allVerifiers = "cred-single", true
+	sc2.phase, sc2.allVerifiers = "cred-pair", r.Thorough()
+	runPhase(sc1.phase, credSingles, &sc1)
+	runPhase(sc2.phase, credPairs, &sc2)
+	r.Set("lists_cred_single", len(credSingles))
+	r.Set("lists_cred_pair", len(credPairs))
+	r.Set("requests_per_list_without_verifier_cred", sc1.requests())
+
+	runPhase("pair", pairs, nil)
 	r.Set("lists_pair", len(pairs))
 
 	// ---- phase 4: hot swap. One manager, list L1, request, ReloadInternalUsers(L2), same request:
@@ -944,7 +1146,7 @@ func main() {
 		r.Set("hot_swap_list_pairs", n*n)
 	}
 	if len(triples) > 0 {
-		runPhase("triple", triples)
+		runPhase("triple", triples, nil)
 		r.Set("lists_triple", len(triples))
 	}
 
@@ -953,10 +1155,10 @@ func main() {
 		r.Sample(map[string]any{"users": json.RawMessage(t.usersJSON(l))})
 	}
 	r.Set("entry_alphabet", len(singles)-1)
-	r.Set("requests_per_list_without_verifier", len(actions)*len(t.paths)*len(t.ips)*len(t.sup)*len(t.variants))
+	r.Set("requests_per_list_without_verifier", t.mainScope("single").requests())
 	r.Set("dimension_sizes", map[string]int{
-		"credential_combinations": len(t.creds), "ip_lists": len(t.ipsets), "permission_sets": len(t.permsets),
-		"actions": len(actions), "paths": len(t.paths), "client_ips": len(t.ips), "supplied_credentials": len(t.sup),
+		"credential_combinations": t.nMainCreds, "credential_combinations_cred_phases": len(t.creds), "ip_lists": len(t.ipsets), "permission_sets": len(t.permsets),
+		"actions": len(actions), "paths": len(t.paths), "client_ips": len(t.ips), "supplied_credentials": t.nMainSup, "supplied_credentials_cred_phases": len(t.sup),
 		"verifiers": nVer, "pair_sub_alphabet": len(sub),
 	})
 	r.Set("class_histogram", ck.hist)
@@ -992,7 +1194,7 @@ func (ck *checker) swap(m *auth.Manager, l1, l2 []entry, a *acc) {
 			req.Path = path
 			for ipI := range t.ips {
 				req.IP = t.ips[ipI].ip
-				for supI, s := range t.sup {
+				for supI, s := range t.sup[:t.nMainSup] {
 					cred.User, cred.Pass = s.user, s.pass
 					w1, why1 := t.expect(l1, verNil, ipI, actI, pathI, supI)
 					w2, why2 := t.expect(l2, verNil, ipI, actI, pathI, supI)
